@@ -33,7 +33,7 @@ def run(pid):
     mkeys = [[1, 7, 7, 0, 9, 0, 3, 3], [1, 7, 7, 0, 9, 0, 3, 4], [2, 7, 7, 0, 9, 0, 3, 3]]
     drift_total = checked_total = 0
     for pl, il, mc in ([(30, 30, 6), (33, 70, 6), (28, 22, 5), (200, 70, 5)] if thorough else [(33, 30, 5)]):
-        consts = {"Vals": "{0, 5}", "PriLimit": pl, "IdxLimit": il, "MaxCalls": mc, "WithGC": "FALSE", "LowUses": "{101}", "Deadlines": "{0}"}
+        consts = {"Vals": "{0, 5}", "PriLimit": pl, "IdxLimit": il, "MaxCalls": mc, "WithGC": "FALSE", "LowUses": "{101}", "Deadlines": "{0}", "IDeadlines": "{0}"}
         r0 = vlib.tlc_must("MCStore", "MCStore_mc.cfg", consts=consts, timeout=3000)
         if r0.violated:
             raise vlib.Infra("Store.tla violates Refines / PredictedPositionsExact / FreedOnce - replay the counter-example first:\n" + r0.out[-2500:])
